@@ -231,7 +231,7 @@ void CSRMatrix::conjugate(MatrixBase &result) const
         for (unsigned i = 0; i < x_.size(); ++i) {
             x[i] = SymEngine::conjugate(x_[i]);
         }
-        r = CSRMatrix(col_, row_, std::move(p), std::move(j), std::move(x));
+        r = CSRMatrix(row_, col_, std::move(p), std::move(j), std::move(x));
     } else {
         throw NotImplementedError("Not Implemented");
     }
